@@ -72,6 +72,17 @@ def run(ctx):
     for nums in LISTS + [[str(rng.choice([e for e in EDGE if e <= 4294967295])) for _ in range(3)] for _ in range(5 if q else 60)]:
         for salt in (["s", "", "é"] if q else ["s", "", "é", "salt437", "netconan", "0"]):
             cases.append(textgen.pipe(as_lines(rng, nums, 10), flags="", salt=salt, asnums=nums))
+    # salts under which a number at the TOP of its block is its own image (a fixed point of the keyed mapping): anything that "moves on" from there leaves the block
+    for top in (65535, 64511):
+        blk = linegen.as_block(top)
+        found = 0
+        for k in range(200000):
+            salt = "fp%d" % k
+            if int(hashlib.md5((salt + str(top)).encode()).hexdigest(), 16) % (BOUNDS[blk + 1] - BOUNDS[blk]) + BOUNDS[blk] == top:
+                cases.append(textgen.pipe(["router bgp %d\n" % top, " neighbor 10.0.0.1 remote-as %d\n" % top], flags="", salt=salt, asnums=[str(top)]))
+                found += 1
+                if found >= (1 if q else 3):
+                    break
     m2, i2 = ctx.correspond(cases, project=lambda c, o: textgen.norm(o), label="as-text")
     nt = 0
     for c, out in zip(cases, i2):
